@@ -717,6 +717,9 @@ class Exec(object):
         mfc = re.fullmatch(r'(?:core::)?f64::(?:<impl f64>::)?(NAN|EPSILON|MAX|MIN|MIN_POSITIVE)', s)
         if mfc:
             return Fl(fc[mfc.group(1)])
+        mbits = re.fullmatch(r'(?:core::num::<impl )?(i8|i16|i32|i64|i128|isize|u8|u16|u32|u64|u128|usize)(?:>)?::BITS', s)
+        if mbits:
+            return Int(z3.BitVecVal(INT_BITS[mbits.group(1)], 32), False)
         mic = re.fullmatch(r'(?:core::num::<impl )?(i64|u64|usize|i32|u32|u8)(?:>)?::(MIN|MAX)', s)
         if mic:
             ty = mic.group(1)
@@ -1432,6 +1435,10 @@ class Exec(object):
             cands = []
             if base and base not in ('C', 'Self', 'T', 'F', 'NumericTypes'):
                 cands.append(base)
+                # type aliases of the crate under which rustdoc lists an impl
+                cands += {'Vec': ['TupleType'], 'f64': ['FloatType'], 'i64': ['IntType']}.get(base, [])
+            if st_ == '()':
+                cands.append('()')
             if trait in ('EvalexprNumericTypes',):
                 cands.append('DefaultNumericTypes')
             if trait == 'EvalexprInt':
